@@ -1083,6 +1083,12 @@ func (w *World) writerTask(t *simcore.Task) {
 	nTxns := c.Range(p.TxnsMin, p.TxnsMax)
 	for i := 0; i < nTxns; i++ {
 		t.Step("txn")
+		if w.ghost != nil && c.Choose(6) == 0 {
+			if !w.rejectedWriteTxn(t, w.pickTables(p.MinTxnTables)) {
+				return
+			}
+			t.Step("rejected")
+		}
 		wt := w.beginWrite(t, w.pickTables(p.MinTxnTables))
 		open = wt
 		if wt == nil || w.S.Failed() {
@@ -1192,4 +1198,50 @@ func (w *World) finishHeld(wt *WTxn, pl *pulled) bool {
 	}
 	w.probe("txn-iterator-finished-after-writes")
 	return true
+}
+
+// rejectedWriteTxn requests a write transaction that names, among registered tables, one that is not
+// registered with the database. The request is refused (it panics); a refused request holds nothing
+// afterwards, so every later transaction on the named tables is still granted (C10).
+func (w *World) rejectedWriteTxn(t *simcore.Task, arg []int) bool {
+	var metas []statedb.TableMeta
+	for _, ti := range arg {
+		metas = append(metas, w.tables[ti].T)
+	}
+	at := w.C.Choose(len(metas) + 1)
+	metas = append(metas[:at], append([]statedb.TableMeta{w.ghost}, metas[at:]...)...)
+	w.S.Logf("%s WriteTxn%v with an unregistered table at position %d", t.Name, arg, at)
+	w.fault("writetxn-unregistered-table")
+	t.Op = "WriteTxn"
+	var got statedb.WriteTxn
+	var pv any
+	func() {
+		defer func() {
+			pv = recover()
+			if pv != nil && simcore.IsAbort(pv) {
+				panic(pv)
+			}
+		}()
+		got = w.db.WriteTxn(metas...)
+	}()
+	t.Op = ""
+	if pv == nil && got != nil {
+		// granted after all: nothing the properties speak about; give it back
+		leakedTxns = append(leakedTxns, got)
+		func() {
+			defer func() {
+				if r := recover(); r != nil && simcore.IsAbort(r) {
+					panic(r)
+				}
+			}()
+			got.Abort()
+		}()
+		return !w.S.Failed()
+	}
+	w.probe("writetxn-rejected")
+	if held := w.S.LocksOwnedBy(t); len(held) > 0 {
+		w.violate("C10", "lock-leak", "%s: WriteTxn%v naming an unregistered table was refused (%v) but left %d table lock(s) held (%v): no later transaction on those tables can ever be granted", t.Name, arg, pv, len(held), held)
+		return false
+	}
+	return !w.S.Failed()
 }
